@@ -1316,6 +1316,8 @@ def _dispatch_targets(D, adv, ch):
                 v = rv['op'].get('int')
             elif rv['k'] == 'discr' and rv['pl']['l'] == dest and not rv['pl']['p']:
                 v = 1
+            elif rv['k'] == 'discr' and not rv['pl']['p'] and isinstance(env.get(rv['pl']['l']), tuple) and env[rv['pl']['l']][0] == 'adt':
+                v = env[rv['pl']['l']][2]      # the kind a pure classifier returned for this character
             elif rv['k'] == 'binop':
                 a, b = val(env, rv['a']), val(env, rv['b'])
                 if a is not None and b is not None:
@@ -1357,6 +1359,17 @@ def _dispatch_targets(D, adv, ch):
                     r = eval_char_pred(g, a) if a is not None else None
                     if r is not None:
                         env[t['dest']['l']] = int(r)
+                elif g is not None and not g.is_closure and g.arg_count == 1 and g.locals[1]['ty'] == 'char' and len(c.args) == 1 and not t['dest']['p']:
+                    # ... or a pure classifier of the character into a field-less enum (`match classify(ch) { .. }`)
+                    a = val(env, c.args[0])
+                    if isinstance(a, int):
+                        import cinterp
+                        try:
+                            r = cinterp.Interp(prog).run(g, [a])
+                            if isinstance(r, tuple) and r[0] == 'adt' and not r[3]:
+                                env[t['dest']['l']] = r
+                        except cinterp.Unknown:
+                            pass
                 st.append((t.get('target'), tuple(sorted(env.items()))))
         elif t['k'] in ('drop', 'assert'):
             st.append((t['target'], e2))
